@@ -18,6 +18,9 @@ Decided (AVN exact unless noted):
  BAND       the shortcut ``isclose(trace, 3) -> zeros`` of DCM.log covers every rotation angle below acos(1 - tol/2); the
             property demands a correct logarithm for every angle "however small", so the band must be empty (exact test).
 Not decided: branch cuts at +/-pi, gimbal lock, small-angle conditioning.
+Added after the seeding rounds (DESIGN.md 6.6-6.8):
+ LOG.arm / RPY.gate / POWER arms / AXANG paths  every inequality-guarded arm agrees with the generic closed form on the inputs that reach it; pole gates capture
+            only |pitch| within 1e-6 rad of 90 deg; from_axisangle with a non-unit axis.
 """
 import ast
 import numpy as np
